@@ -75,6 +75,42 @@ def module_func(mod, name):
 
 
 # ------------------------------------------------------------------------------------------------
+_MODULE = {}
+
+
+def name_table(ident, node):
+    """a module-level `ident = {"a": "b", ...}` of expression.py with str keys and values, never written elsewhere"""
+    mod = _MODULE["expression"]
+    found = None
+    for n in ast.walk(mod):
+        tg = []
+        if isinstance(n, ast.Assign):
+            tg = n.targets
+        elif isinstance(n, (ast.AnnAssign, ast.AugAssign)):
+            tg = [n.target]
+        for t in tg:
+            base = t.value if isinstance(t, ast.Subscript) else t
+            if isinstance(base, ast.Name) and base.id == ident:
+                if found is not None or n not in mod.body or not isinstance(n, (ast.Assign, ast.AnnAssign)) \
+                        or isinstance(t, ast.Subscript):
+                    fail(f"name table {ident} is written in more than one place", n)
+                found = n.value
+        if isinstance(n, ast.Call) and isinstance(n.func, ast.Attribute) and isinstance(n.func.value, ast.Name) \
+                and n.func.value.id == ident and n.func.attr not in ("get", "items", "keys", "values"):
+            fail(f"name table {ident} is modified by .{n.func.attr}()", n)
+    if not isinstance(found, ast.Dict):
+        fail(f"name table {ident} is not a module-level dict literal", node)
+    out = []
+    for k, v in zip(found.keys, found.values):
+        if not (isinstance(k, ast.Constant) and isinstance(k.value, str) and isinstance(v, ast.Constant)
+                and isinstance(v.value, str)):
+            fail(f"name table {ident}: entries must be string literals", found)
+        out.append((k.value, v.value))
+    if len({k for k, _ in out}) != len(out):
+        fail(f"name table {ident}: repeated key", found)
+    return out
+
+
 def calc_branches(cls, defs_seen):
     """-> list of (guard, tag, [fields])"""
     fn = method(cls, "_calc_hash")
@@ -110,6 +146,17 @@ def calc_branches(cls, defs_seen):
         if name == "registry":
             if val != "get_type_registry()":
                 fail(f"{what}: registry = {val}", stmt)
+            return
+        nm_attr = NAME_ATTR.get(cls.name)
+        v = stmt.value
+        if nm_attr and isinstance(v, ast.Call) and isinstance(v.func, ast.Attribute) and v.func.attr == "get" \
+                and isinstance(v.func.value, ast.Name) and not v.keywords and [src(a) for a in v.args] == [nm_attr, nm_attr]:
+            # <table>.get(self.func_name, self.func_name): the name is replaced through a module-level str->str table
+            table = name_table(v.func.value.id, stmt)
+            if name in local or cls.name in defs_seen.get("__name_map__", {}):
+                fail(f"{what}: {name} assigned twice", stmt)
+            local[name] = "EName"
+            defs_seen.setdefault("__name_map__", {})[cls.name] = table
             return
         if val not in DEFS:
             fail(f"{what}: unrecognised definition {name} = {val}", stmt)
@@ -316,7 +363,7 @@ def cq(s: str) -> str:
 
 
 def translate(pins: dict | None = None):
-    """-> (coq text, pins found, ve)"""
+    """-> (coq text, pins found, ve, SimpleExpression name map)"""
     mod = load("redun/expression.py")
     classes = {n: find_class(mod, n) for n in ("Expression", "ApplyExpression", "TaskExpression", "SimpleExpression",
                                                "SchedulerExpression", "ValueExpression")}
@@ -336,6 +383,7 @@ def translate(pins: dict | None = None):
         if method(classes[c], "get_hash", required=False) is not None:
             fail(f"{c} overrides get_hash")
     defs_seen: dict = {}
+    _MODULE["expression"] = mod
     br = {c: calc_branches(classes[c], defs_seen) for c in ("TaskExpression", "SchedulerExpression", "SimpleExpression",
                                                             "ValueExpression")}
     if br["SchedulerExpression"] == SHIPPED_SCHED:
@@ -344,6 +392,11 @@ def translate(pins: dict | None = None):
         ve = "Fixed"
     else:
         fail(f"SchedulerExpression._calc_hash: unrecognised layout {br['SchedulerExpression']}")
+    maps = defs_seen.pop("__name_map__", {})
+    if set(maps) - {"SimpleExpression"}:
+        fail(f"_calc_hash of {sorted(set(maps) - {'SimpleExpression'})} replaces the task name before hashing (not modelled)")
+    nm = maps.get("SimpleExpression", [])
+    nm_coq = "[" + "; ".join(f"({cq(a)}, {cq(c)})" for a, c in nm) + "]" if nm else "(@nil (bytes * bytes))"
     for k in DEF_FIELD:
         if k not in defs_seen:
             fail(f"no _calc_hash defines a {k}")
@@ -389,6 +442,7 @@ def translate(pins: dict | None = None):
          f"  ed_task := {branches(br['TaskExpression'])};",
          f"  ed_scheduler := {branches(br['SchedulerExpression'])};",
          f"  ed_simple := {branches(br['SimpleExpression'])};",
+         f"  ed_simple_name_map := {nm_coq};",
          f"  ed_value := {branches(br['ValueExpression'])};",
          f"  ed_options_hash := {cq(defs_seen['EOptionsHash'])};",
          f"  ed_export_hash := {cq(defs_seen['EExportHash'])};",
@@ -400,14 +454,15 @@ def translate(pins: dict | None = None):
          f"  ed_pending_key := {cq(pending)};",
          f"  ed_fields_fixed_after_construction := {'true' if fixed_fields else 'false'}",
          "|}.",
-         f"(* the theorems of Props/C18.v are about [describe_expr ve]; the source is in variant ve={ve} *)",
-         f"Lemma C18_tie : gen = describe_expr {ve}.",
+         f"(* the theorems of Props/C18.v are about [describe_expr ve []] (operator names hashed verbatim); the source "
+         f"is in variant ve={ve}, name map {nm} *)",
+         f"Lemma C18_tie : gen = describe_expr {ve} {nm_coq}.",
          "Proof. vm_compute. reflexivity. Qed.", ""]
-    return "\n".join(v), got, ve
+    return "\n".join(v), got, ve, nm
 
 
 if __name__ == "__main__":
-    text, got, ve = translate()
+    text, got, ve, nm = translate()
     sys.stdout.write(text)
     print(json.dumps(got, indent=1), file=sys.stderr)
     print(ve, file=sys.stderr)
